@@ -50,7 +50,7 @@ def cross_validate(P, names, ctx=None):
     chars = '0 .5xXhHkKgGmMcsS\t٣'
     for name in names:
         pat = P.patterns[name]
-        c = re.compile(pat)
+        c = re.compile(pat, re.I if name in getattr(P, 'ignorecase', ()) else 0)
         d = P.dfa(name)
         acc = enumerate_lang(P, d)
         for s in acc + near_misses(acc, chars):
